@@ -548,13 +548,22 @@ func entityLUBsRelated(a, b entityLUB) bool {
 // isEntityDescendant returns true if childType can be a descendant (member) of ancestorType.
 // This means childType lists ancestorType (directly or transitively) in its ParentTypes.
 func (v *Validator) isEntityDescendant(childType, ancestorType types.EntityType) bool {
+	return v.isEntityDescendantSeen(childType, ancestorType, map[types.EntityType]struct{}{})
+}
+
+// isEntityDescendantSeen walks the (possibly cyclic) parent-type graph once per type.
+func (v *Validator) isEntityDescendantSeen(childType, ancestorType types.EntityType, seen map[types.EntityType]struct{}) bool {
+	if _, ok := seen[childType]; ok {
+		return false
+	}
+	seen[childType] = struct{}{}
 	// Entity types always exist in the schema (validated during scope checking).
 	entity := v.schema.Entities[childType]
 	for _, parent := range entity.ParentTypes {
 		if parent == ancestorType {
 			return true
 		}
-		if v.isEntityDescendant(parent, ancestorType) {
+		if v.isEntityDescendantSeen(parent, ancestorType, seen) {
 			return true
 		}
 	}
